@@ -382,6 +382,16 @@ pub fn run(tier: Tier) -> Run {
     run.set("bound_completed", json!({"deviations": 1}));
     run.set("exhaustive", json!(true));
     run.set("samples", json!(cs.iter().step_by(cs.len() / 5 + 1).map(|c| json!({"case": c.name, "bytes": hex(&c.bytes), "expected_callbacks": expected_log(c).len()})).collect::<Vec<_>>()));
+    // ---- re-entrancy: a consumer that runs a complete second parse from inside a callback of the first (every ordered pair
+    //      of 12 small binaries x 7 callback positions): both parses give what they give alone
+    {
+        let (n, bad) = crate::util::nested_parse_sweep();
+        run.outcome("nested_parses", n);
+        for (why, rep) in bad.into_iter().take(3) {
+            let class = why.split(':').next().unwrap_or("").to_string();
+            run.add(viol(format!("C14:nested-parse:{}", class), why, rep));
+        }
+    }
     run.set("rule", json!("state = (binary, callback position); every state is driven with answers continue / stop / error on the real Parser; the log of callbacks is compared with the protocol prefix, the result with the answer given, the ConsumerError payload with the consumer's own error by identity; the real Loader is run on every binary. The same is done, with three scripts per binary, for every binary of the C03 corruption universe, where the expected callbacks (the instructions preceding the first malformed one) come from the reference acceptor"));
     run.require_outcome("universe:accepted");
     run.require_outcome("universe:rejected");
